@@ -106,7 +106,7 @@ def kverif(group, args, timeout=1800, env=None, allow_fail=False):
 # ----------------------------------------------------------------------------- TLC
 
 _STATS = re.compile(r"(\d+) states generated, (\d+) distinct states found")
-_TUPLE = re.compile(r'^<<"([A-Z0-9]+)"(.*)>>\s*$', re.S)
+_TUPLE = re.compile(r'^<<\s*"([A-Z0-9]+)"(.*)>>\s*$', re.S)
 
 
 def _tuple_texts(out):
@@ -115,7 +115,7 @@ def _tuple_texts(out):
     i = 0
     while i < len(lines):
         ln = lines[i].strip()
-        if re.match(r'^<<"[A-Z0-9]+"', ln):
+        if re.match(r'^<<\s*"[A-Z0-9]+"', ln):
             buf = ln
             j = i
             while not buf.endswith(">>") and j + 1 < len(lines) and j - i < 200:
